@@ -5,7 +5,7 @@ binarizer(decision, reward) computed by the harness with the binarizer *in force
 add_arm(arm, new_binarizer) the new one).  Same seed, same call sequence, outputs compared bit-for-bit at
 every query.
 
-As built: Extras: rating-like rewards (repeated (decision, reward) pairs across an add_arm), a few 24000-31000-row batches with n_jobs in {2,3,-1}; integer rewards 2^53 + k in int64 arrays with a binarizer that decides on their low bits. A quarter of the training calls pass decisions and rewards as reversed (negative-stride) views. One binarizer is an object whose owner extends its threshold table before every add_arm.
+As built: Extras: rating-like rewards (repeated (decision, reward) pairs across an add_arm), a few 24000-31000-row batches with n_jobs in {2,3,-1}; integer rewards 2^53 + k in int64 arrays with a binarizer that decides on their low bits. A quarter of the training calls pass decisions and rewards as reversed (negative-stride) views. One binarizer is an object whose owner extends its threshold table before every add_arm. Round 8: validating binarizers (thr_strict / inv_strict) refuse one reward of a batch (partial_fit raises), the corrected batch is offered again.
 """
 from mon import env  # noqa: F401
 import copy
